@@ -16,16 +16,16 @@ CHECKS = {
         note="Unforgeability and bijectivity are assumptions (stated in evidence); block/stream ciphers are modelled statelessly, which only strengthens the adversary; lengths enumerated; timing not modelled.",
         design="5/C02", technique=T),
     "C03": dict(
-        text="Decision code of the hello processing, driven as units on real connection objects. Server: the real _serverGetClientHello receives a ClientHello with symbolic legacy version, cipher-suite ids, FALLBACK_SCSV presence and supported_versions entries under a family of 13 validated settings and RSA/ECDSA credentials; z3 proves that whatever is returned lies inside the server's version range, passes the settings/version/certificate filters, was offered by the client (suite, version, signature scheme), and that a fallback SCSV is honoured; everything else ends in a fatal alert on the wire. Client: the real _handshakeClientAsyncHelper builds its own ClientHello and receives a ServerHello with symbolic version fields, suite, compression, random tail, session-id echo and EMS: it proceeds only with a version inside its settings, an offered suite the version defines, null compression, an echoed session id in TLS 1.3, EMS when required, and never past a downgrade sentinel. The suite filters themselves are proved against the IANA-name oracle (C20.2) and the server's resumption conditions in C13.1.",
-        note="What two LIVE endpoints hold after completion (equal secrets, exporter output, certificate chains) is not compared - no obligation runs two handshakes; groups/signature lists are fixed in the symbolic hellos; later flights are cut.",
+        text="Decision code of the hello processing, driven as units on real connection objects. Server: the real _serverGetClientHello receives a ClientHello with symbolic legacy version, cipher-suite ids, FALLBACK_SCSV presence and supported_versions entries under a family of 13 validated settings and RSA/ECDSA credentials; z3 proves that whatever is returned lies inside the server's version range, passes the settings/version/certificate filters, was offered by the client (suite, version, signature scheme), and that a fallback SCSV is honoured; everything else ends in a fatal alert on the wire. Client: the real _handshakeClientAsyncHelper builds its own ClientHello and receives a ServerHello with symbolic version fields, suite, compression, random tail, session-id echo and EMS: it proceeds only with a version inside its settings, an offered suite the version defines, null compression, an echoed session id in TLS 1.3, EMS when required, and never past a downgrade sentinel. The suite filters themselves are proved against the IANA-name oracle (C20.2) and the server's resumption conditions in C13.1. Live pair (F-PAIR): two real TLSConnection endpoints run whole handshakes against each other over an in-memory pipe with hash/HMAC, (EC)DH, signatures and AEAD as uninterpreted-function models and every random value symbolic; for TLS 1.3 (external PSK in psk_ke/psk_dhe_ke, certificate, certificate + client authentication; three suites) and TLS 1.0-1.2 (RSA, DHE_RSA, ECDHE_RSA, ECDHE_ECDSA; GCM, ChaCha20, CBC with/without EtM, RC4; EMS on/off) z3 proves that honest peers complete and hold equal versions, suites, flags, chains and secrets, that those secrets, the Finished values and the exporter output equal the RFC 8446 7.1 / RFC 5246 / RFC 7627 / RFC 5705 values computed independently from the bytes seen on the wire, and that every protected record carries the tag/MAC of its epoch's key and sequence number (C03.6, C03.7).",
+        note="Pair obligations: one suite/key-exchange per shape, x25519 / ffdhe2048, no HelloRetryRequest, SRP and anonymous suites not paired, ALPN/SNI/record-size-limit agreement only through the unit obligations; groups/signature lists are fixed in the symbolic hellos of the unit obligations.",
         design="5/C03", technique=T),
     "C04": dict(
-        text="Transcript completeness on a real connection (every handshake message sent through _sendMsg/_queue_message or returned by _getMsg - incl. NewSessionTicket, with symbolic bodies and a symbolic record split - is hashed exactly once, whole, in order; non-handshake records are not; the wire carries exactly the hashed bytes); HandshakeHashes over the hash model (every digest covers everything fed, copies are independent, SSLv3 digest per RFC 6101); _getFinished completes only if CCS is 0x01 and verify_data equals calc_key(peer label, transcript) with the read state switched exactly once; the downgrade defences (server FALLBACK_SCSV, client sentinels) are the C03.2/C03.3 obligations, which run under this property too.",
-        note="'Every byte position of every flight' is replaced by: the transcript covers every handshake byte and completion requires the Finished MAC over it, under a collision-free hash model; TLS 1.3 Finished/CertificateVerify sites and HelloRetryRequest consistency are not driven yet; no man-in-the-middle run between live endpoints.",
+        text="Transcript completeness on a real connection (every handshake message sent through _sendMsg/_queue_message or returned by _getMsg - incl. NewSessionTicket, with symbolic bodies and a symbolic record split - is hashed exactly once, whole, in order; non-handshake records are not; the wire carries exactly the hashed bytes); HandshakeHashes over the hash model (every digest covers everything fed, copies are independent, SSLv3 digest per RFC 6101); _getFinished completes only if CCS is 0x01 and verify_data equals calc_key(peer label, transcript) with the read state switched exactly once; the downgrade defences (server FALLBACK_SCSV, client sentinels) are the C03.2/C03.3 obligations, which run under this property too. On-path attacker between two live endpoints (F-PAIR, C04.4-C04.7): for each enumerated offset of either direction's byte stream one byte is replaced by a symbolic different value (TLS 1.3 PSK and certificate handshakes, TLS 1.2 ECDHE/GCM and RSA/CBC, a TLS 1.0-1.3 mixed configuration for downgrade), or the k-th record is dropped, duplicated or swapped; under collision resistance of the hash/HMAC/PRF models, AEAD ciphertext integrity and signature unforgeability z3 proves that the endpoints never both complete with different versions, suites, secrets, names or chains, never complete below TLS 1.3 when both support it, and never raise a non-TLS exception.",
+        note="Quick tier samples stream offsets (every 8th in the client direction, all of the TLS 1.3 PSK server flight), thorough enumerates all; the two length bytes of each record header are left to C01/C02; multi-byte rewrites only as whole-record drop/duplicate/swap; HelloRetryRequest flows not attacked.",
         design="5/C04", technique=T),
     "C05": dict(
-        text="Proof sites driven with the peer's public key as a stub whose verify() is a symbolic predicate V: verifyServerKeyExchange accepts only a (hash, signature) pair the client offered for the certificate's key type, over exactly hash(client_random || server_random || params), only if V holds, never an empty signature; the TLS 1.3 PSK/ticket selection attributes a stored client identity only when that ticket was selected after its binder verified (C13.5); own signatures are emitted only after self-verification (C10.6); DSA acceptance is exact (C10.3); the SRP server refuses A = 0 mod N for every A; the Checker passes iff the fingerprint matches; and no error path that is meant to abort is a discarded generator call (AST, regenerated each run).",
-        note="TLS <= 1.2 and TLS 1.3 CertificateVerify verification sites inside the long handshake functions and post-handshake authentication are not driven (only their building blocks); signature mathematics is C10; certificate path validation is not done by the library.",
+        text="Proof sites driven with the peer's public key as a stub whose verify() is a symbolic predicate V: verifyServerKeyExchange accepts only a (hash, signature) pair the client offered for the certificate's key type, over exactly hash(client_random || server_random || params), only if V holds, never an empty signature; the TLS 1.3 PSK/ticket selection attributes a stored client identity only when that ticket was selected after its binder verified (C13.5); own signatures are emitted only after self-verification (C10.6); DSA acceptance is exact (C10.3); the SRP server refuses A = 0 mod N for every A; the Checker passes iff the fingerprint matches; and no error path that is meant to abort is a discarded generator call (AST, regenerated each run). Live pair (C05.2, C05.3): one endpoint runs the real handshake code with a signing oracle that does not hold the certificate's key (arbitrary-but-wrong signature, bit flip, other key, other transcript, empty, short, long) or sends a wrong Finished, as server and as client, in TLS 1.3, TLS 1.2 (ECDHE_RSA, DHE_RSA, ECDHE_ECDSA) and TLS 1.0: under signature unforgeability z3 proves the verifying side never completes and records no peer chain.",
+        note="Post-handshake authentication and delegated credentials are not driven; SRP proof only as the A mod N check; signature mathematics is C10; certificate path validation is not done by the library.",
         design="5/C05", technique=T),
     "C06": dict(
         text="The gate every received message passes, TLSRecordLayer._getMsg(expected content types, expected handshake types), is executed on a real TLSConnection for every literal argument pair found at the library's call sites (read from the AST on each run), both roles and versions, with the next record's content type, handshake type and body symbolic: z3 proves that a message is returned only if its content type and handshake type were expected, and that everything else ends in a fatal alert that is on the wire before the exception (unexpected_message for a wrong type), the peer's own alert, or a decode error. Renegotiation attempts on an established connection are proved to be answered with no_renegotiation without touching state; the TLS 1.3 framing rules (CCS only as 0x01 in compatibility mode, no interleaving, key-change messages end on a record boundary, no empty non-application records, no empty record skipped while a handshake message is awaited) are separate obligations.",
@@ -36,8 +36,8 @@ CHECKS = {
         note="Bounded by the enumerated input lengths (quick: extension payloads 0..8, messages up to 49 bytes); X.509 bodies are opaque; wall time and heap are not measured (no allocation sized by an unchecked peer length is the proxy); connection-level obligations are being added.",
         design="5/C08", technique=T),
     "C13": dict(
-        text="Server session-ID resumption (real _serverGetClientHello with a cache holding one session whose resumable flag, suite, EMS, EtM and server name are symbolic selections, and a ClientHello with symbolic EMS/EtM/SNI): resumes only a live, resumable session whose suite is still allowed and offered and whose EMS/EtM/SNI are consistent, otherwise full handshake or alert, never an exception. TLS 1.2 tickets (_ticket_to_session/_tryDecrypt with an unforgeable AEAD model keyed by ticket key, symbolic clock/creation time/lifetime, rotated key sets, arbitrary forged ticket bytes): a session comes back only under a current key and unexpired. TLS 1.3 PSK selection (loop of _serverTLS13Handshake with symbolic ticket version/PRF/age/binder verdict): selected only if binder verified, version and PRF match, not expired; client identity only from the selected ticket. Client: resumption is assumed only when the server echoed the offered session ID, a declined ticket leads to a full handshake. Session.valid(); the cache itself (C18.1).",
-        note="A second LIVE handshake reproducing the first one's secrets is not run; the ticket encryption key derivation is reduced to key separation (HKDF is C09.12); stages after the resumption decision are cut.",
+        text="Server session-ID resumption (real _serverGetClientHello with a cache holding one session whose resumable flag, suite, EMS, EtM and server name are symbolic selections, and a ClientHello with symbolic EMS/EtM/SNI): resumes only a live, resumable session whose suite is still allowed and offered and whose EMS/EtM/SNI are consistent, otherwise full handshake or alert, never an exception. TLS 1.2 tickets (_ticket_to_session/_tryDecrypt with an unforgeable AEAD model keyed by ticket key, symbolic clock/creation time/lifetime, rotated key sets, arbitrary forged ticket bytes): a session comes back only under a current key and unexpired. TLS 1.3 PSK selection (loop of _serverTLS13Handshake with symbolic ticket version/PRF/age/binder verdict): selected only if binder verified, version and PRF match, not expired; client identity only from the selected ticket. Client: resumption is assumed only when the server echoed the offered session ID, a declined ticket leads to a full handshake. Session.valid(); the cache itself (C18.1). Two consecutive live connections (F-PAIR, C13.6/C13.7): TLS 1.3 tickets resume exactly when intact, under a current key and hash-compatible, with the second key schedule equal to RFC 8446 over the resumption PSK of the first connection, the suite and the client identity kept, and a full handshake otherwise (rewritten ticket byte, rotated key, other suite, client-side expiry); TLS 1.0/1.2 session-ID and ticket resumption keeps master secret, suite, EMS, EtM and server name, and an unknown id/ticket, dropped EMS/EtM, other suite or SNI never yields a resumed connection with other properties.",
+        note="Pair obligations use one suite family (ECDHE_RSA AES-128-CBC for TLS <= 1.2), a stub clock and fixed ticket_age_add; server-side expiry with symbolic time is the unit obligation C13.5.",
         design="5/C13", technique=T),
     "C14": dict(
         text="RecordSocket._sockRecvAll/_sockSendAll are executed against a socket stub whose every recv()/send() either would-blocks or transfers a symbolic number of bytes: under every such schedule the value produced is exactly the next `length` symbolic bytes, nothing is read beyond them, one 0 is yielded per would-block, EOF is TLSAbruptCloseError and the loop never spins; everything passed to send is transmitted once and in order. The Defragmenter delivers the same two symbolic handshake messages (and an interleaved alert) wherever the stream is cut. TLSConnection.read() on a symbolic wire gives the same outcome (data, alert, abrupt close, closed flag) under every chunk schedule as under one-shot delivery. The blocking read/write/close are shown (AST pattern, regenerated each run) to be exactly 'exhaust the async generator', and AsyncStateMachine._checkAssert to admit at most one active operation for all flag combinations.",
